@@ -93,7 +93,7 @@ pub async fn macro_step_kind(run: &mut Run, n: u64, script: u64, kind: u64, mon:
             check_invariants(run, mon, hid, "after a tick").await?;
         }
         if kind == 2 && round == 1 {
-            run.apply(&Ev::Register { who: all.clone() }, mon).await?;
+            run.apply(&Ev::Register { who: all.clone(), label_offset: 0 }, mon).await?;
         }
         let snap = sim::snapshot(&run.sim.db_path())?;
         run.prev = snap;
@@ -159,11 +159,11 @@ pub async fn run_fresh(dir: PathBuf, script: u64, steps: u64, mon: &mut Monitor)
     let mut run = Run::start(dir, &mut rng).await?;
     let all: Vec<usize> = (0..run.n_signers()).collect();
     let hid = format!("script{script}");
-    for ev in [Ev::Tick, Ev::Register { who: all.clone() }, Ev::EpochUp(1)] {
+    for ev in [Ev::Tick, Ev::Register { who: all.clone(), label_offset: 0 }, Ev::EpochUp(1)] {
         run.apply(&ev, mon).await?;
     }
     persist_world(&run, 0, script).await?;
-    for ev in [Ev::Tick, Ev::Tick, Ev::Register { who: all.clone() }] {
+    for ev in [Ev::Tick, Ev::Tick, Ev::Register { who: all.clone(), label_offset: 0 }] {
         run.apply(&ev, mon).await?;
     }
     for n in 0..steps {
